@@ -455,6 +455,22 @@ func (te *TEnv) call(x ECall) TV {
 			now = te.old.st.now
 		}
 		return TV{T(SBool, "(and (>= (birth %s) %s) (not (= %s null)))", t.S, now.S, t.S), nil}
+	case "mkslice":
+		// mkslice(base, off, len, "[]T"): a slice value from ghost components
+		name, ok := arg(3).(EStr)
+		if !ok {
+			sfail("mkslice wants a type name string")
+		}
+		gt := v.eng.goType(te.pkg, name.V)
+		if gt == nil {
+			sfail("mkslice: unknown type %s", name.V)
+		}
+		st, ok := gt.Underlying().(*types.Slice)
+		if !ok {
+			sfail("mkslice: %s is not a slice type", name.V)
+		}
+		l := te.term(arg(2))
+		return TV{SliceV{B: te.term(arg(0)), O: te.term(arg(1)), L: l, C: l, Elem: st.Elem()}, gt}
 	case "birth":
 		return TV{T(SInt, "(birth %s)", te.term(arg(0)).S), nil}
 	case "allocated":
